@@ -506,6 +506,24 @@ def permutations(ctx, im, ncases, nmax):
                     break
             ctx.oracle('C02.d each period\'s rows depend on that period only (order / batching / leading 0, ==)', bad is None,
                        {'acc': a, 'dt': dt, 'periods': periods, 'xi': xi, 'permuted_periods': bad})
+            # ... and hence the spectra: each period's (S_d, S_v, S_a) depends on that period only, whatever the order of the list
+            # (the list mixes periods on both sides of 6*dt, where S_a is the peak ground acceleration)
+            from eqsig import sdof as _sdof
+            mixed = ([0.0] if lead0 else []) + [dt * rng.choice([0.5, 2.0, 5.5, 6.5, 12.0, 40.0, 300.0]) for _ in range(max(2, len(nz)))]
+            for fn_name in ('pseudo_response_spectra', 'true_response_spectra'):
+                fn = getattr(_sdof, fn_name)
+                b0 = [np.asarray(x) for x in fn(a, dt, np.array(mixed), xi)]
+                nzm = mixed[1:] if lead0 else mixed
+                perm = list(range(len(nzm)))
+                rng.shuffle(perm)
+                pl = ([0.0] if lead0 else []) + [nzm[j] for j in perm]
+                r = [np.asarray(x) for x in fn(a, dt, np.array(pl), xi)]
+                idx = list(range(s)) + [s + j for j in perm]
+                okp = all(np.array_equal(x, y[idx]) for x, y in zip(r, b0))
+                singles = all(np.array_equal(np.asarray(fn(a, dt, np.array([T]), xi))[:, 0], np.array([y[j] for y in b0]))
+                              for j, T in enumerate(mixed) if T != 0)
+                ctx.oracle(f'C02.d {fn_name}: each period\'s spectral values depend on that period only (any order of the list, ==)',
+                           okp and singles, {'acc': a, 'dt': dt, 'periods': mixed, 'permuted_periods': pl, 'xi': xi})
         else:            # random partition of up to 30 periods into batches + every period alone
             m = rng.randint(2, 30)
             periods, lead0 = pick_periods(rng, dt, lo=m, hi=m)
